@@ -109,12 +109,31 @@ pub mod openssl {
                 Some(p) => p@ == acme_tls_1() && wire_offers(client@, acme_tls_1()),
                 None => !wire_offers(client@, acme_tls_1()) })
         { unimplemented!() }
-        pub struct SslAcceptorBuilder { pub alpn_restricted: Ghost<bool> }
-        pub struct SslAcceptor { pub alpn_restricted: Ghost<bool> }
+        // protocol versions as tenths (TLS 1.2 = 12); max 99 = no upper bound
+        pub struct SslAcceptorBuilder { pub alpn_restricted: Ghost<bool>, pub min_tls: Ghost<int>, pub max_tls: Ghost<int> }
+        pub struct SslAcceptor { pub alpn_restricted: Ghost<bool>, pub min_tls: Ghost<int>, pub max_tls: Ghost<int> }
+        #[derive(Clone, Copy)]
+        pub struct SslVersion { pub v: u8 }
+        impl SslVersion {
+            pub const TLS1: SslVersion = SslVersion { v: 10 };
+            pub const TLS1_1: SslVersion = SslVersion { v: 11 };
+            pub const TLS1_2: SslVersion = SslVersion { v: 12 };
+            pub const TLS1_3: SslVersion = SslVersion { v: 13 };
+        }
         impl SslAcceptor {
+            // the Mozilla server-side profiles of the openssl crate and the oldest protocol version each still accepts
             #[verifier::external_body]
             pub fn mozilla_intermediate(m: SslMethod) -> (r: Result<SslAcceptorBuilder, ErrorStack>)
-                ensures r matches Ok(b) ==> !b.alpn_restricted@ { unimplemented!() }
+                ensures r matches Ok(b) ==> !b.alpn_restricted@ && b.min_tls@ == 10 && b.max_tls@ == 99 { unimplemented!() }
+            #[verifier::external_body]
+            pub fn mozilla_intermediate_v5(m: SslMethod) -> (r: Result<SslAcceptorBuilder, ErrorStack>)
+                ensures r matches Ok(b) ==> !b.alpn_restricted@ && b.min_tls@ == 12 && b.max_tls@ == 99 { unimplemented!() }
+            #[verifier::external_body]
+            pub fn mozilla_modern(m: SslMethod) -> (r: Result<SslAcceptorBuilder, ErrorStack>)
+                ensures r matches Ok(b) ==> !b.alpn_restricted@ && b.min_tls@ == 12 && b.max_tls@ == 99 { unimplemented!() }
+            #[verifier::external_body]
+            pub fn mozilla_modern_v5(m: SslMethod) -> (r: Result<SslAcceptorBuilder, ErrorStack>)
+                ensures r matches Ok(b) ==> !b.alpn_restricted@ && b.min_tls@ == 13 && b.max_tls@ == 99 { unimplemented!() }
             // the handshake may fail for any reason the peer chooses
             #[verifier::external_body]
             pub fn accept(&self, s: crate::vnet::Stream) -> (r: Result<SslStream, HandshakeError>) { unimplemented!() }
@@ -129,18 +148,30 @@ pub mod openssl {
                     forall|s: &mut SslRef, c: &[u8], r: Result<&[u8], AlpnError>| #[trigger] f.ensures((s, c), r) ==> (match r {
                         Ok(p) => p@ == acme_tls_1() && wire_offers(c@, acme_tls_1()),
                         Err(e) => e == AlpnError::ALERT_FATAL && !wire_offers(c@, acme_tls_1()) }), //@C16.alpn_only_acme_tls_1
-                ensures final(self).alpn_restricted@
+                ensures final(self).alpn_restricted@, final(self).min_tls == old(self).min_tls, final(self).max_tls == old(self).max_tls
             { unimplemented!() }
             #[verifier::external_body]
+            pub fn set_min_proto_version(&mut self, v: Option<SslVersion>) -> (r: Result<(), ErrorStack>)
+                ensures final(self).alpn_restricted == old(self).alpn_restricted, final(self).max_tls == old(self).max_tls,
+                    r is Ok ==> final(self).min_tls@ == (match v { Some(x) => x.v as int, None => 0 }) { unimplemented!() }
+            #[verifier::external_body]
+            pub fn set_max_proto_version(&mut self, v: Option<SslVersion>) -> (r: Result<(), ErrorStack>)
+                ensures final(self).alpn_restricted == old(self).alpn_restricted, final(self).min_tls == old(self).min_tls,
+                    r is Ok ==> final(self).max_tls@ == (match v { Some(x) => x.v as int, None => 99 }) { unimplemented!() }
+            #[verifier::external_body]
             pub fn set_private_key(&mut self, k: &crate::openssl::pkey::PKey) -> (r: Result<(), ErrorStack>)
-                ensures final(self).alpn_restricted == old(self).alpn_restricted { unimplemented!() }
+                ensures final(self).alpn_restricted == old(self).alpn_restricted, final(self).min_tls == old(self).min_tls, final(self).max_tls == old(self).max_tls { unimplemented!() }
             #[verifier::external_body]
             pub fn set_certificate(&mut self, c: &crate::openssl::x509::X509) -> (r: Result<(), ErrorStack>)
-                ensures final(self).alpn_restricted == old(self).alpn_restricted { unimplemented!() }
+                ensures final(self).alpn_restricted == old(self).alpn_restricted, final(self).min_tls == old(self).min_tls, final(self).max_tls == old(self).max_tls { unimplemented!() }
             #[verifier::external_body]
             pub fn check_private_key(&self) -> (r: Result<(), ErrorStack>) { unimplemented!() }
             #[verifier::external_body]
-            pub fn build(self) -> (r: SslAcceptor) ensures r.alpn_restricted == self.alpn_restricted { unimplemented!() }
+            // RFC 8737 section 3: validation uses TLS 1.2 or higher - a responder that refuses TLS 1.2 (or 1.3) leaves such a client without the certificate
+            #[verifier::external_body]
+            pub fn build(self) -> (r: SslAcceptor)
+                requires self.min_tls@ <= 12 && self.max_tls@ >= 13, //@C16.clients_speaking_tls_1_2_or_1_3_are_served
+                ensures r.alpn_restricted == self.alpn_restricted, r.min_tls == self.min_tls, r.max_tls == self.max_tls { unimplemented!() }
         }
         }
     }
